@@ -67,6 +67,12 @@ func (fv *FuncVC) finish() {
 	}()
 	fv.inFinish = true
 	fv.curReach = tTrue
+	// precompute block ancestry (queries are assembled concurrently and must only read it)
+	if fv.Fn != nil {
+		for _, b := range fv.Fn.Blocks {
+			fv.ancestors(b)
+		}
+	}
 	done := map[string]bool{}
 	for _, u := range strings.FieldsFunc(fv.FC.Opts["use"], func(r rune) bool { return r == ',' || r == ' ' }) {
 		fv.forceAxioms[u] = true
